@@ -501,6 +501,18 @@ func fieldOf(base *Expr, name string) *Expr {
 			alts = append(alts, fieldOf(a, name))
 		}
 		return mkPhi(alts)
+	case "elem":
+		// an element of a list that was built by appends only (collected in one loop, consumed in another): the field of
+		// whichever element — of any of the appended ones
+		if len(base.Args) >= 1 {
+			if alts, ok := builtAlts(base.Args[0], 0); ok && len(alts) > 0 {
+				var out []*Expr
+				for _, a := range alts {
+					out = append(out, fieldOf(a, name))
+				}
+				return mkPhi(out)
+			}
+		}
 	case "loop":
 		// the cell's own value from the previous iteration: so is the field's
 		return base
@@ -2470,3 +2482,81 @@ func MkPhi(alts []*Expr) *Expr { return mkPhi(alts) }
 
 // FieldOf projects a field out of a record expression.
 func FieldOf(base *Expr, name string) *Expr { return fieldOf(base, name) }
+
+// builtAlts: the elements a list can hold when it is built by appends alone: append(base, e1, e2...) chains starting from
+// an empty list (make, nil, a zero value), possibly loop-carried. ok=false when the list has any other origin.
+func builtAlts(e *Expr, depth int) ([]*Expr, bool) {
+	if e == nil || depth > 8 {
+		return nil, false
+	}
+	switch {
+	case e.Op == "phi":
+		var out []*Expr
+		for _, a := range e.Args {
+			xs, ok := builtAlts(a, depth+1)
+			if !ok {
+				return nil, false
+			}
+			out = append(out, xs...)
+		}
+		return out, true
+	case e.Op == "loop" || e.Op == "makeslice" || e.Op == "zero" || e.Op == "const" && e.Name == "nil":
+		return nil, true
+	case e.Op == "call" && e.Name == "builtin:append" && len(e.Args) == 2:
+		base, ok := builtAlts(e.Args[0], depth+1)
+		if !ok {
+			return nil, false
+		}
+		if e.Args[1].Op == "list" {
+			return append(base, e.Args[1].Args...), true
+		}
+		more, ok := builtAlts(e.Args[1], depth+1)
+		if !ok {
+			return nil, false
+		}
+		return append(base, more...), true
+	case e.Op == "conv" && len(e.Args) == 1:
+		return builtAlts(e.Args[0], depth+1)
+	}
+	return nil, false
+}
+
+// BuiltSites: the append calls that put elements into a list built by appends alone (see builtAlts).
+func BuiltSites(e *Expr) ([]ssa.CallInstruction, bool) {
+	var out []ssa.CallInstruction
+	var visit func(e *Expr, depth int) bool
+	visit = func(e *Expr, depth int) bool {
+		if e == nil || depth > 8 {
+			return false
+		}
+		switch {
+		case e.Op == "phi":
+			for _, a := range e.Args {
+				if !visit(a, depth+1) {
+					return false
+				}
+			}
+			return true
+		case e.Op == "loop" || e.Op == "makeslice" || e.Op == "zero" || e.Op == "const" && e.Name == "nil":
+			return true
+		case e.Op == "call" && e.Name == "builtin:append" && len(e.Args) == 2:
+			if !visit(e.Args[0], depth+1) {
+				return false
+			}
+			if e.Args[1].Op != "list" && !visit(e.Args[1], depth+1) {
+				return false
+			}
+			if e.Call != nil {
+				out = append(out, e.Call)
+			}
+			return true
+		case e.Op == "conv" && len(e.Args) == 1:
+			return visit(e.Args[0], depth+1)
+		}
+		return false
+	}
+	if !visit(e, 0) {
+		return nil, false
+	}
+	return out, true
+}
